@@ -11,8 +11,8 @@ open TdModel TdModel.C30
   interleaving of the notifications' atomic steps that ends in exactly that state with those results?
 * `script <hasStorage> <primaryDC> <stored|-> <act>…` (`S:<notif>` / `A:<i>`) → `<results,…> <state>` after exactly that
   interleaving (notif kind `m` = migration to `dc`)
-* `conns <hasStorage> <primaryDC> <stored|-> <act>…` (`N:r|c:<dc>` new connection, `E:<id>:<session>` session confirmed on
-  connection id, `I:<id>:<serverDC>` its config arrives) → final client state
+* `conns <hasStorage> <primaryDC> <stored|-> <act>…` (`N:r|c:<dc>:<serverDC>` new connection, `E:<id>:<session>` session confirmed on
+  connection id, `IB:<id>` its init runs up to the Setup callback, `IE:<id>` the callback returns and init finishes) → final client state
 * `restore <hasStorage> <primaryDC> nf|err|<stored>` → `ok <session>` / `err load` / `err corrupted`
   (SHA-1 = `Prims.real`)
 
@@ -55,16 +55,17 @@ def parseNotif (t : String) : Option Notif :=
     pure ⟨kind, ← dc.toInt?, ⟨← ofHex k, ← ofHex i⟩, ⟨← ofHex pk, ← ofHex pi⟩, ← salt.toInt?, f⟩
   | _ => none
 
-/-- `N:r|c:<dc>` / `E:<id>:<key>,<keyid>,<perm>,<permid>,<salt>` / `I:<id>:<serverDC>` -/
+/-- `N:r|c:<dc>:<serverDC>` / `E:<id>:<key>,<keyid>,<perm>,<permid>,<salt>` / `IB:<id>` / `IE:<id>` -/
 def parseMAct (t : String) : Option MAct :=
   match t.splitOn ":" with
-  | ["N", k, dc] => do pure (.new (k == "c") (← dc.toInt?))
+  | ["N", k, dc, sd] => do pure (.new (k == "c") (← dc.toInt?) (← sd.toInt?))
   | ["E", id, ev] =>
     match ev.splitOn "," with
     | [kv, ki, pv, pi, salt] => do
       pure (.ev (← id.toNat?) ⟨⟨← ofHex kv, ← ofHex ki⟩, ⟨← ofHex pv, ← ofHex pi⟩, ← salt.toInt?⟩)
     | _ => none
-  | ["I", id, sd] => do pure (.init (← id.toNat?) (← sd.toInt?))
+  | ["IB", id] => do pure (.initBegin (← id.toNat?))
+  | ["IE", id] => do pure (.initEnd (← id.toNat?))
   | _ => none
 
 def zeroKey : AuthKey := ⟨List.replicate 256 0, List.replicate 8 0⟩
